@@ -145,4 +145,12 @@ PROPS = {
              "params": {"quick": {"fill": 1, "forms": 1, "stride": 3}, "thorough": {"fill": 1, "forms": 2, "stride": 4}}, "wall": {"quick": "150s", "thorough": "40m"}},
         ],
     },
+    "C17": {
+        "technique": "bounded symbolic execution of the scanner's line bookkeeping, tokenize, read_list cursors, Position.Close, EVAL's error sites, NewLispError and env lookups on program texts with symbolic layout (blank space, LF, CRLF, TAB, comments, multi-line raw strings) around one planted fault in eleven nesting constructs; position assertion against line numbers computed by the harness; SMT (z3) decides assertions",
+        "outside": "columns; errors raised in other threads; faults reached through map/apply/swap! (re-positioned at the calling form); faults other than the four planted ones; layout beyond the bound",
+        "runs": [
+            {"pkg": "./c17", "harness": "Harness_position", "setup": "Setup",
+             "params": {"quick": {"fill": 1, "fill_u0": 0, "fill_u3": 0, "okforms": 2}, "thorough": {"fill": 1}}, "wall": {"thorough": "40m"}},
+        ],
+    },
 }
